@@ -7,6 +7,7 @@ import Mhd.Proofs.FramingDecide
 namespace Mhd.Framing
 open Mhd.Gen.Framing Framer
 
+
 /-! ### the decoder on every admissible rendering of a chunk -/
 
 def hexFrom (res : Nat) (ds : Bytes) : Nat := ds.foldl (fun a c => a * 16 + (hexVal c).getD 0) res
@@ -286,6 +287,9 @@ theorem chunkAct_term_eol (lvl : Int) (n : Nat) (hn : n ≠ 0) (eol : Eol) (heol
     | nil => simp [hbl]
     | cons d r => simp [h2, hbl]
 
+set_option linter.unusedSectionVars false
+variable [P : HeadParser] [L : LawfulHeadParser]
+
 /-- finitely many iterations of the idle loop with a fixed application -/
 inductive Steps (lvl : Int) (app : App) : St → St → Prop
   | refl (s : St) : Steps lvl app s s
@@ -360,9 +364,11 @@ theorem steps_chunk (lvl : Int) (app : App) (s : St) (c : Chunk) (hc : ChunkOK l
 /-- upload events of a list of chunks (coalesced by `emitUpload`) -/
 def uploadAll (cs : List Chunk) (out : List Ev) : List Ev := cs.foldl (fun o c => emitUpload c.data o) out
 
+omit P L in
 theorem uploadAll_cons (c : Chunk) (cs : List Chunk) (out : List Ev) :
     uploadAll (c :: cs) out = uploadAll cs (emitUpload c.data out) := rfl
 
+omit P L in
 theorem uploadAll_emit (cs : List Chunk) (x : Bytes) (out : List Ev) :
     uploadAll cs (emitUpload x out) = emitUpload (x ++ cs.flatMap Chunk.data) out := by
   induction cs generalizing x with
@@ -371,6 +377,7 @@ theorem uploadAll_emit (cs : List Chunk) (x : Bytes) (out : List Ev) :
     rw [uploadAll_cons, emitUpload_emitUpload, ih]
     simp [List.flatMap_cons, List.append_assoc]
 
+omit P L in
 /-- the upload events amount to one event carrying the concatenated chunk data -/
 theorem uploadAll_eq (cs : List Chunk) (out : List Ev) (hne : cs ≠ []) :
     uploadAll cs out = emitUpload (cs.flatMap Chunk.data) out := by
